@@ -45,6 +45,10 @@ func AuthRequestError(w http.ResponseWriter, r *http.Request, authReq ErrAuthReq
 		http.Error(w, e.Description, http.StatusBadRequest)
 		return
 	}
+	// the error may be a value that is shared between requests (such as a package-level
+	// error of the storage): add the state of this request to a copy of it.
+	ec := *e
+	e = &ec
 	e.State = authReq.GetState()
 	var sessionState string
 	authRequestSessionState, ok := authReq.(AuthRequestSessionState)
@@ -97,6 +101,10 @@ func TryErrorRedirect(ctx context.Context, authReq ErrAuthRequest, parent error,
 		return nil, AsStatusError(e, http.StatusBadRequest)
 	}
 
+	// the error may be a value that is shared between requests (such as a package-level
+	// error of the storage): add the state of this request to a copy of it.
+	ec := *e
+	e = &ec
 	e.State = authReq.GetState()
 	var sessionState string
 	authRequestSessionState, ok := authReq.(AuthRequestSessionState)
